@@ -153,9 +153,22 @@ def judge(g, name, text, fname):
     if rescan:
         old = os.path.getmtime(inp) - 7200
         os.utime(inp, (old, old))
-    rs = run.run([g.tools['schema_scanner'], inp], cwd=sdir, env=g.env, timeout=g.timeout)
+    # the input is named the way cmake / a user may name it: canonical absolute path, relative to the working directory, with a
+    # `dir/..` detour, through a symbolic link
+    spelling = ('absolute', 'relative', 'dotted', 'symlink')[sum(map(ord, name)) % 4]
+    sinp = inp
+    if spelling == 'relative':
+        sinp = os.path.relpath(inp, sdir)
+    elif spelling == 'dotted':
+        sinp = os.path.join(os.path.dirname(inp), '..', os.path.basename(os.path.dirname(inp)), os.path.basename(inp))
+    elif spelling == 'symlink':
+        lnk = os.path.join(root, 'lnk')
+        os.symlink(os.path.dirname(inp), lnk)
+        sinp = os.path.join(lnk, os.path.basename(inp))
+    rs = run.run([g.tools['schema_scanner'], sinp], cwd=sdir, env=g.env, timeout=g.timeout)
     rg = run.run([g.tools['exp2cxx'], inp], cwd=gdir, env=g.env, timeout=g.timeout)
     res = dict(name=name, findings=[], runs=2, status='judged', nschemas=0, nfiles=0, tags=set())
+    res['tags'].add('input path spelling: ' + spelling)
     if rescan:
         res['tags'].add('history: build tree scanned before for another version of the file')
     if rs.timed_out or rg.timed_out:
